@@ -36,20 +36,20 @@ _FAMILY_A = {
 }
 for _p, _w in _FAMILY_A.items():
   CLAIMED[_p] = {
-    "text": f"Structural necessary conditions only, for {_w}: every launch reachable from the stage binds each schema-named kernel parameter to the same-named Model/Data field (argument-order conformance over all bindings), read-only Data parameters are not written, index spaces are not mixed, batched fields are indexed by the world modulo their own size, no enum member the stage dispatches on lost its handler relative to the confirmed baseline, plus the property-specific structural clauses named under `technique`. Numerical agreement with MuJoCo is NOT decided (no static argument bounds float results).",
+    "text": f"Structural necessary conditions only, for {_w}: every launch reachable from the stage binds each schema-named kernel parameter to the same-named Model/Data field (argument-order conformance over all bindings), read-only Data parameters are not written, index spaces are not mixed, batched fields are indexed by the world modulo their own size, no enum member the stage dispatches on lost its handler relative to the confirmed baseline, com-based quantities are shifted about subtree_com[body_rootid[.]] only, quaternions assembled from qpos are normalised before use, plus the property-specific structural clauses named under `technique`. Numerical agreement with MuJoCo is NOT decided (no static argument bounds float results).",
     "note": STATIC_NOTE,
-    "technique": "launch-binding conformance over resolved call sites + index-space typing + batched-index normal form + enum-handler exhaustiveness against a confirmed baseline + reference-offset agreement, plus per-property clauses (C03 clamp-last and gain/bias parameter families, C04 routing tables, C05 row-class launch order, C07 cutoff-last, object-type frame families and slot-record permutation, C08 RK4 save/restore and advance order) (R-BIND, R-SORT, R-BATCH, R-DISPATCH, R-REF, R-CLAMP, R-FAMILY, R-SEQ, R-RECORD, R-PAIR)",
+    "technique": "launch-binding conformance over resolved call sites + index-space typing + batched-index normal form + enum-handler exhaustiveness against a confirmed baseline + reference-offset and com-frame agreement + must-pass-through normalisation of state quaternions, plus per-property clauses (C03 clamp-last, path-sensitive clamp on every return of next_act, gain/bias parameter families; C04 routing tables and contact-slot record completeness; C05 row-class launch order and constraint-row record completeness; C07 cutoff-last, object-type frame families, slot-record permutation, either-order writers commute; C08 RK4 save/restore, advance order, integrator workspaces initialised before partial writes) (R-BIND, R-SORT, R-BATCH, R-DISPATCH, R-REF, R-FRAME, R-NORM.5, R-CLAMP, R-FAMILY, R-SEQ, R-RECORD, R-PAIR, R-LIVE.5/.5b/.7)",
     "design_ref": "DESIGN.md section 4 Family A",
   }
 
 CLAIMED["C14"] = {
-  "text": "Static decision of the field-set, source, extent, masking, ordering and rejection clauses: the keyframe copy writes exactly mj_resetDataKeyframe's fields from the same-named key_* arrays at [key_in[worldid]] over their full extents, every access is dominated by the validity mask 0 <= key < nkey, reset_data(mask) precedes the copy, and scalar keys out of range raise before any launch.",
+  "text": "Static decision of the field-set, source, extent, masking, ordering and rejection clauses: the keyframe copy writes exactly mj_resetDataKeyframe's fields from the same-named key_* arrays at [key_in[worldid]] over their full extents, every access is dominated by the validity mask 0 <= key < nkey, reset_data(mask) precedes the copy, and scalar keys out of range raise before any launch. Also: the validity mask is a scratch array of the call, written by a validity launch that dominates reset_data and the keyframe copy (R-GATE.7); no undeclared attribute is hung on Model/Data (R-GLOBAL.9).",
   "note": STATIC_NOTE,
   "technique": "kernel IR value/extent matching against a MuJoCo layout oracle + dominance of the world mask + host event ordering (R-LAYOUT, R-GATE)",
   "design_ref": "DESIGN.md section 4 C14",
 }
 CLAIMED["C15"] = {
-  "text": "Static decision of the state layout for all 2^14 signatures: per State bit the (field, size, offsets) extracted from the ASTs of _get_state/_set_state equals MuJoCo's mj_stateSize table, bits are visited in ascending order, get and set are mirror images (float()/bool() cast pairs), every access is dominated by the active mask, signatures >= 2^NSTATE raise before the launch.",
+  "text": "Static decision of the state layout for all 2^14 signatures: per State bit the (field, size, offsets) extracted from the ASTs of _get_state/_set_state equals MuJoCo's mj_stateSize table, bits are visited in ascending order, get and set are mirror images (float()/bool() cast pairs), every access is dominated by the active mask, signatures >= 2^NSTATE raise before the launch. The rejecting guard accepts exactly sig < 2^NSTATE (decided symbolically in NSTATE).",
   "note": STATIC_NOTE,
   "technique": "syntax-directed layout extraction compared with an oracle table + mask dominance on the kernel IR (R-LAYOUT, R-GATE)",
   "design_ref": "DESIGN.md section 4 C15",
@@ -62,7 +62,7 @@ CLAIMED["C36"] = {
 }
 
 CLAIMED["C12"] = {
-  "text": "Static decision that step() and forward() read nothing but the integration state: the live-in set of the ordered field-level effect trace (fields read or accumulated into with no earlier possible definition in the same call) contains only Model fields, State.INTEGRATION fields, tabled sticky diagnostics / make_data constants and, with sleeping enabled, the persistent sleep state; no scratch array is read before definition. Also: every kernel that allocates a slot of the flat contact buffer redefines every Contact field of the slot over its full extent; for every single disable/enable flag and tested flag pair no read of a non-state field stays reachable while all earlier definitions become unreachable (three-valued, with single-atom case split); loop scratch filled by sparse scatter is cleared per iteration.",
+  "text": "Static decision that step() and forward() read nothing but the integration state: the live-in set of the ordered field-level effect trace (fields read or accumulated into with no earlier possible definition in the same call) contains only Model fields, State.INTEGRATION fields, tabled sticky diagnostics / make_data constants and, with sleeping enabled, the persistent sleep state; no scratch array is read before definition. Also: every kernel that allocates a slot of the flat contact buffer redefines every Contact field of the slot over its full extent; for every single disable/enable flag and tested flag pair no read of a non-state field stays reachable while all earlier definitions become unreachable (three-valued, with single-atom case split); loop scratch filled by sparse scatter is cleared per iteration. Also: constraint-row and contact-slot records are written completely and unconditionally by their allocators; a kernel that skips worlds with a zero counter runs only where the tree's complement writer of the same field is enabled (R-LIVE.9); no function stores an undeclared attribute on a Model/Data object (R-GLOBAL.9).",
   "note": STATIC_NOTE + " May-define counts as a kill (under-reporting only).",
   "technique": "interprocedural def-use (live-in) analysis over host effect traces with per-kernel read/write summaries (R-LIVE) + three-valued flag-conditioned liveness + slot-record completeness (R-LIVE.4-.6)",
   "design_ref": "DESIGN.md section 4 C12, section 3 R-LIVE",
@@ -89,14 +89,14 @@ CLAIMED["C25"] = {
 }
 
 CLAIMED["C24"] = {
-  "text": "Static, path-sensitive decision of the sign/zero clauses: every return of the constraint force law carries an admissible (state, force form, path condition) triple (SATISFIED => 0; LINEARNEG/LINEARPOS => +/-frictionloss beyond +/-rf; friction QUADRATIC => -D*jaref strictly inside; limit/contact QUADRATIC => -D*jaref under jaref < 0 with D stored as x/max(., MINVAL) > 0); efc.force/state have a single writer fed by that law; qfrc_constraint pairs J[r, j] with force[r] on dof j. Also: the change counters of the incremental solver path are incremented under exactly the change condition of the value they track.",
+  "text": "Static, path-sensitive decision of the sign/zero clauses: every return of the constraint force law carries an admissible (state, force form, path condition) triple (SATISFIED => 0; LINEARNEG/LINEARPOS => +/-frictionloss beyond +/-rf; friction QUADRATIC => -D*jaref strictly inside; limit/contact QUADRATIC => -D*jaref under jaref < 0 with D stored as x/max(., MINVAL) > 0); efc.force/state have a single writer fed by that law; qfrc_constraint pairs J[r, j] with force[r] on dof j. Also: the change counters of the incremental solver path are incremented under exactly the change condition of the value they track. The sparse qfrc_constraint rebuild, which skips worlds without rows, runs only where the init kernel's complement write is enabled (R-LIVE.9).",
   "note": STATIC_NOTE,
   "technique": "path-condition analysis of a decision tree (values touched only through comparisons) + who-may-write + index pairing on the kernel IR + residual path-condition matching of change counters (R-TRACK)",
   "design_ref": "DESIGN.md section 4 C24",
 }
 
 CLAIMED["C23"] = {
-  "text": "Static decision of the normalisation barrier (first clause): every quaternion component the integrators store into qpos is a component of quat_integrate's result, all of whose returns are wp.normalize(...); every store to xquat is wp.normalize(...); every orientation matrix is quat_to_mat of quaternions assembled only from xquat and Model quaternions (or a Model reference matrix).",
+  "text": "Static decision of the normalisation barrier (first clause): every quaternion component the integrators store into qpos is a component of quat_integrate's result, all of whose returns are wp.normalize(...); every store to xquat is wp.normalize(...); every orientation matrix is quat_to_mat of quaternions assembled only from xquat and Model quaternions (or a Model reference matrix). Every quaternion assembled from qpos passes through wp.normalize before any other use, in all kernels (R-NORM.5).",
   "note": STATIC_NOTE,
   "technique": "must-pass-through (value provenance through marked calls) on the kernel IR (R-NORM)",
   "design_ref": "DESIGN.md section 4 C23",
@@ -116,13 +116,13 @@ CLAIMED["C17"] = {
 }
 
 CLAIMED["C32"] = {
-  "text": "Static decision that flag tests are wired to the contributions they should remove and only to those: under the sole assumption that a flag is set/clear, every write of its own contribution in step()/forward() is unreachable (three-valued evaluation of host- and kernel-level path conditions, flags resolved through launch bindings) or stores zero, sibling contributions stay reachable, and every flag is still consulted in the feature areas of the confirmed baseline. Also: force kernels and their velocity-derivative siblings are gated consistently in both directions and for both implicit integrators; a flag (pair) that switches off the stage defining a field leaves no reachable reader of the stale value.",
+  "text": "Static decision that flag tests are wired to the contributions they should remove and only to those: under the sole assumption that a flag is set/clear, every write of its own contribution in step()/forward() is unreachable (three-valued evaluation of host- and kernel-level path conditions, flags resolved through launch bindings) or stores zero, sibling contributions stay reachable, and every flag is still consulted in the feature areas of the confirmed baseline. Also: force kernels and their velocity-derivative siblings are gated consistently in both directions and for both implicit integrators; a flag (pair) that switches off the stage defining a field leaves no reachable reader of the stale value. No stage module tests an option flag it does not test on the confirmed tree (R-FLAGS.6: flags are stage-scoped).",
   "note": STATIC_NOTE,
   "technique": "three-valued path-condition evaluation over effect traces under a single-flag assumption (R-FLAGS) + reference baseline (R-DISPATCH) + sibling gating both ways (R-FLAGS.3/.4) + flag-conditioned liveness (R-LIVE.6)",
   "design_ref": "DESIGN.md section 4 C32",
 }
 CLAIMED["C38"] = {
-  "text": "Static decision of the structural clauses: the sequential DOF compaction guards its map writes by count < nvmax, sets the NVMAX bit under count > nvmax on the same counter and clamps ncdof; scatter kernels write x_c[dof_cdof[i]] for active and 0.0 for frozen DOFs; gather kernels read x[cdof_dof[ci]] into compact slot ci. Also: the running count is a demand counter (no increment or loop exit conditioned on the capacity).",
+  "text": "Static decision of the structural clauses: the sequential DOF compaction guards its map writes by count < nvmax, sets the NVMAX bit under count > nvmax on the same counter and clamps ncdof; scatter kernels write x_c[dof_cdof[i]] for active and 0.0 for frozen DOFs; gather kernels read x[cdof_dof[ci]] into compact slot ci. Also: the running count is a demand counter (no increment or loop exit conditioned on the capacity). A gather written as a scatter over full-space dofs is accepted only when a full definition of the compact vector dominates it in the same call.",
   "note": STATIC_NOTE,
   "technique": "guard / value-form matching on the kernel IR (R-CAP, R-GATE)",
   "design_ref": "DESIGN.md section 4 C38",
@@ -136,26 +136,26 @@ CLAIMED["C33"] = {
 }
 
 CLAIMED["C19"] = {
-  "text": "Narrow structural claim: the all-pairs broadphase iterates the pre-filtered pair tables; the sweep-and-prune broadphase tests the pair-id exclusion code before every store into the pair list; explicit pairs read only pair_* parameters (indexed by the pair id) and generated pairs only geom_* parameters. On the host side only the order of the stores into the pair-id table is decided (explicit pairs are written after every filter store, so they override all geom-level filters); the boolean filter formula itself is NOT decided.",
+  "text": "Narrow structural claim: the all-pairs broadphase iterates the pre-filtered pair tables; the sweep-and-prune broadphase tests the pair-id exclusion code before every store into the pair list; explicit pairs read only pair_* parameters (indexed by the pair id) and generated pairs only geom_* parameters. On the host side only the order of the stores into the pair-id table is decided (explicit pairs are written after every filter store, so they override all geom-level filters); the boolean filter formula itself is NOT decided. In the contact writer, every statement that sets ContactType.CONSTRAINT is under a condition that is definitely false for the filter code -2 (R-GATE.8).",
   "note": STATIC_NOTE,
   "technique": "must-guard dominance on path conditions + field-family discipline per branch (R-GATE)",
   "design_ref": "DESIGN.md section 4 C19",
 }
 CLAIMED["C30"] = {
-  "text": "Static decision of the layout and initialisation clauses: every access to the history buffer (through inlined read/insert functions, resolved by binding) has one of the canonical affine forms off+0, off+1, off+2+p, off+2+n+p*dim+d with off and n from the same element's tables; the buffer is written only by history.py and set_state; make_data/put_data must initialise it (make_data does not: recorded finding).",
+  "text": "Static decision of the layout and initialisation clauses: every access to the history buffer (through inlined read/insert functions, resolved by binding) has one of the canonical affine forms off+0, off+1, off+2+p, off+2+n+p*dim+d with off and n from the same element's tables; the buffer is written only by history.py and set_state; make_data/put_data must initialise it (make_data does not: recorded finding). For hoisted wrap-around addresses the alternatives differ by the ring size in address units (n*dim in strided sections).",
   "note": STATIC_NOTE,
   "technique": "affine normal forms of index terms matched against the MuJoCo buffer layout (R-LAYOUT)",
   "design_ref": "DESIGN.md section 4 C30",
 }
 CLAIMED["C31"] = {
-  "text": "Static decision of coverage clauses: put_model validates membership for every typed field whose enum the kernels dispatch on; every types.Model field is an MjModel attribute (copied by name) or assigned in put_model and every symbolic array dimension is defined; get_data_into copies each MjData field from the same-named Data field at [world_id]. Also: every host access to MjData's efc_J sparse structure is control-dependent on mujoco.mj_isSparse() and every access to Data.efc's on is_sparse() (layout-predicate ownership).",
+  "text": "Static decision of coverage clauses: put_model validates membership for every typed field whose enum the kernels dispatch on; every types.Model field is an MjModel attribute (copied by name) or assigned in put_model and every symbolic array dimension is defined; get_data_into copies each MjData field from the same-named Data field at [world_id]. Also: every host access to MjData's efc_J sparse structure is control-dependent on mujoco.mj_isSparse() and every access to Data.efc's on is_sparse() (layout-predicate ownership). put_data still computes body_awake / solver_niter / tree_asleep from the same-named MjData attribute (R-LAYOUT.15).",
   "note": STATIC_NOTE + " Oracle: attribute names of the installed mujoco module, frozen in tables/mujoco_attrs.py.",
   "technique": "schema-vs-populator agreement over the AST of put_model / get_data_into (R-LAYOUT, R-VALID) + control-dependence of layout accesses on the owning predicate (R-LAYOUT.14)",
   "design_ref": "DESIGN.md section 4 C31",
 }
 
 CLAIMED["C26"] = {
-  "text": "Structural necessary conditions of forward/inverse consistency: the force sums on the two sides of the equation of motion (forward's qfrc_smooth, inverse's qfrc_inverse) use the same fields with opposite unit coefficients, qfrc_constraint enters the inverse sum with -1, the M*qacc term is the buffer support.mul_m filled from Data.qacc, no input force is consumed by the inverse sum; inverse() runs the same position/velocity stages as forward() in the same order and evaluates constraint forces with constraint-update kernels the forward solver also uses; with INVDISCRETE the discrete-time qacc is restored on every path. Equality up to solver residual is NOT decided (numeric).",
+  "text": "Structural necessary conditions of forward/inverse consistency: the force sums on the two sides of the equation of motion (forward's qfrc_smooth, inverse's qfrc_inverse) use the same fields with opposite unit coefficients, qfrc_constraint enters the inverse sum with -1, the M*qacc term is the buffer support.mul_m filled from Data.qacc, no input force is consumed by the inverse sum; inverse() runs the same position/velocity stages as forward() in the same order and evaluates constraint forces with constraint-update kernels the forward solver also uses; with INVDISCRETE the discrete-time qacc is restored on every path. Equality up to solver residual is NOT decided (numeric). Sibling gating: for Euler damping (both directions) and for IMPLICITFAST (whenever forward.implicit reaches deriv_smooth_vel under an ACTUATION/SPRING/DAMPER assignment, inverse() does too); inverse.py consults no option flag beyond the confirmed set (R-FLAGS.5/.6).",
   "note": STATIC_NOTE,
   "technique": "sibling agreement: affine normal forms (signed term sets) of two kernels' stored values + stage-call sequence on host traces + save/restore pairing (R-SIGN.9, R-SEQ.3, R-PAIR)",
   "design_ref": "DESIGN.md section 4 C26",
